@@ -15,7 +15,14 @@ func H_C03_serialize(minlen, maxlen int) {
 	body := verifrt.Bytes(n)
 	var out []byte
 	var err error
-	pn := verifrt.Catch(func() { out, err = (&Encrypted{Msg: body, MsgID: msgID}).Serialize(inf, ack) })
+	// the receive-side fields of the struct are arbitrary leftovers (a message built before a re-key, a loaded
+	// session whose stored hash does not belong to the stored key): the envelope must not depend on them
+	m := &Encrypted{Msg: body, MsgID: msgID}
+	if verifrt.Bool() {
+		m.AuthKeyHash = verifrt.Bytes(8)
+		m.Salt, m.SessionID, m.SeqNo, m.MsgKey = verifrt.I64(), verifrt.I64(), verifrt.I32(), verifrt.Bytes(16)
+	}
+	pn := verifrt.Catch(func() { out, err = m.Serialize(inf, ack) })
 	verifrt.Assert(!pn, "serialize-no-panic")
 	if pn {
 		return
